@@ -137,7 +137,11 @@ def run_roundtrip(exp, tz=None, sg_fixed=None):
             F = mant * 2 ** (p2 + a2) * 10 ** a10 if p2 + a2 >= 0 else None
             V = val * 10 ** (e10 + a10) * 2 ** a2
             Q = 2 ** (p2 - 2 + a2) * 10 ** a10
-            return [('parsed text is below the float by less than a quarter ulp, never above', z3.Not(z3.And(F - V >= 0, F - V < Q))),
+            # first a DEFINITE failure (more than half an ulp below: a correctly rounding parser must return another float; such a
+            # model replays natively), then the safety margin actually claimed (a violation of the margin alone that does not
+            # replay leaves the check inconclusive, never silent)
+            return [('parsed text is more than half an ulp away from the float: the parser cannot return it', z3.Or(F - V > 2 * Q, V - F > 2 * Q)),
+                    ('parsed text is below the float by less than a quarter ulp, never above', z3.Not(z3.And(F - V >= 0, F - V < Q))),
                     ('sign restored', z3.BoolVal(v.neg != bool(sg)))]
         if isinstance(v, S.F64Quot) and isinstance(v.a, S.IntToF64) and isinstance(v.b, float):
             # `n as f64 / 10^k`: equals f when the quotient is exact in the reals (it is f) AND the first rounding is
